@@ -103,7 +103,7 @@ pub fn dump(i: &Iface) -> String {
 fn cs_of<'a>(it: impl Iterator<Item = &'a z::Comment<'a>>) -> Vec<String> {
     it.map(|c| c.content().to_string()).collect()
 }
-fn ty_of(t: &z::Type<'_>) -> Ty {
+pub fn ty_of(t: &z::Type<'_>) -> Ty {
     match t {
         z::Type::Bool => Ty::Bool,
         z::Type::Int => Ty::Int,
